@@ -6,16 +6,7 @@ From PB Require Import Base.PBytes Text.TextStrModel.
 Import ListNotations.
 Open Scope N_scope.
 
-(* digits of v in [base] (2..16), most significant first, lower case, no
-   leading zeros, "0" for zero.  [fuel] bounds the number of digits. *)
-Fixpoint fmt_base_fuel (fuel : nat) (base v : N) : list byte :=
-  match fuel with
-  | O => [hexdig (v mod base)]
-  | S f => if v <? base then [hexdig v] else fmt_base_fuel f base (v / base) ++ [hexdig (v mod base)]
-  end.
-(* N.size v >= number of digits in any base >= 2 *)
-Definition fmt_base (base v : N) : list byte := fmt_base_fuel (N.to_nat (N.size v)) base v.
-
+(* fmt_base (strconv.AppendUint) is defined in Text/TextStrModel.v *)
 Definition fmt_dec (v : N) : list byte := fmt_base 10 v.      (* FormatUint(v, 10) *)
 Definition fmt_hex (v : N) : list byte := fmt_base 16 v.      (* FormatUint(v, 16) *)
 Definition fmt_int (z : Z) : list byte :=                     (* FormatInt(z, 10) *)
